@@ -35,6 +35,8 @@ type ledgerPending struct {
 	size uint64
 	in   <-chan error
 	out  chan error
+	// waited: the answer did not come at once
+	waited bool
 }
 
 func newLedgerAlloc(w *World, inner *allocator.Allocator, name func(peer.ID) string) *ledgerAlloc {
@@ -57,8 +59,20 @@ func (l *ledgerAlloc) poll() {
 			if err == nil {
 				l.grant(pa.p, pa.size)
 			}
-			pa.out <- err
+			if pa.waited {
+				// several waiting reservations can be answered by one release; their callers
+				// would race for the queue's lock: let them go one at a time (a barrier each,
+				// keyed by the reservation, released in key order once everything has settled)
+				pa := pa
+				go func() {
+					l.w.Park("barrier", fmt.Sprintf("barrier|grant|%s|%06d", l.name(pa.p), pa.size))
+					pa.out <- err
+				}()
+			} else {
+				pa.out <- err
+			}
 		default:
+			pa.waited = true
 			rest = append(rest, pa)
 		}
 	}
